@@ -104,18 +104,10 @@ func lockedRule(c *Ctx, rule, wname string, addRow *ssa.Function, typ *types.Nam
 
 // rowidRule: one id per call; the id used for all values is the id returned; counter only ever incremented by one, once per successful call.
 func rowidRule(c *Ctx, rule, wname string, addRow *ssa.Function, typ *types.Named) {
-	ctr := structFieldNamed(typ, "nextRowID")
+	// the counter: by shape (today's name first, then the only integer field, then the one AddRow increments; rules_ag10.go)
+	ctr := c.a.rowsFieldOf(typ)
 	if ctr == nil {
-		// fall back: the only uint32 field
-		st := typ.Underlying().(*types.Struct)
-		for i := 0; i < st.NumFields(); i++ {
-			if b, ok := st.Field(i).Type().Underlying().(*types.Basic); ok && b.Kind() == types.Uint32 {
-				ctr = st.Field(i)
-			}
-		}
-	}
-	if ctr == nil {
-		c.r.undecided(rule, wname+": counter", "row counter field not found")
+		c.r.undecided(rule, wname+": counter", "row counter field not found"+c.a.SH.whyText())
 		return
 	}
 	site := c.w.pos(addRow.Pos())
